@@ -30,14 +30,7 @@ LEAK_MECH = "evaluate_k_path(ibands)_leaves_ibands_in_available_quantities"
 
 def setup(ctx):
     wb = env.import_wb()
-    import importlib
-    return dict(wb=wb, ek=importlib.import_module("wannierberri.evaluate_k"))
-
-
-def reset_named_quantities(state):
-    """the named quantities of evaluate_k are module-level objects; start every case from the pristine state"""
-    for v in state["ek"].available_quantities.values():
-        v.ibands = None
+    return dict(wb=wb)
 
 
 def recip_of(real_lattice):
@@ -389,7 +382,7 @@ def seekpath_subcase(ctx, rng, wbPath, maxpts=150):
 # ------------------------------------------------------------------ tabulation ----------------
 
 NATURAL = dict(energy=0, band_gradients=1, berry_curvature=2, berry_curvature_internal_terms=2,
-               berry_curvature_external_terms=2, vel=1, im=2, bc_int=2, dbc=3, Energy=0)
+               berry_curvature_external_terms=2, vel=1, im=2, bc_int=2, dbc=3, Energy=0, spin=0, spin_t=0, dspin=1)
 
 
 def fresh_tabulators(tab, names, ibands, has_AA):
@@ -406,6 +399,9 @@ def fresh_tabulators(tab, names, ibands, has_AA):
         im=lambda: tab.InvMass(ibands=ib),
         bc_int=lambda: tab.BerryCurvature(ibands=ib, kwargs_formula={"external_terms": False}),
         dbc=lambda: tab.DerBerryCurvature(ibands=ib, kwargs_formula={} if has_AA else {"external_terms": False}),
+        spin=lambda: tab.Spin(ibands=ib),
+        spin_t=lambda: tab.Spin(ibands=ib),
+        dspin=lambda: tab.DerSpin(ibands=ib),
     )
     return {n: mk[n]() for n in names}
 
@@ -462,6 +458,9 @@ def tabulation_subcase(ctx, rng, state, system, path, K, info, wit0, has_AA):
     named_all = ["energy", "band_gradients", "berry_curvature_internal_terms"] + (
         ["berry_curvature", "berry_curvature_external_terms"] if has_AA else [])
     extra_all = ["vel", "im", "bc_int", "dbc"]
+    if system.has_R_mat("SS"):
+        named_all.append("spin")
+        extra_all += ["spin_t", "dspin"]
     names = [n for n in named_all if rng.random() < 0.6]
     extras = [n for n in extra_all if rng.random() < 0.4]
     if not names and not extras:
@@ -549,44 +548,51 @@ def leak_subcase(ctx, rng, state, system, path, K, has_AA, wit0):
     Eall = gen_systems.bands(system, K)
     good = np.diff(Eall, axis=1).min(axis=1) > GAP_GUARD
     oracle = pointwise_oracle(wb, tab, system, K, names, ibands, has_AA)
-    reset_named_quantities(state)
+    res = wb.evaluate_k_path(system, path=path, quantities=names, ibands=ibands, parallel=False,
+                             k_batch=int(rng.integers(1, 51)))
+    compare_tab(ctx, res, oracle, K, system, ibands, good, a0, "path_tabulation", wit)
+    ctx.count("named_quantities_with_ibands")
+    # afterwards (same process, nothing reset by the harness) a point alone must still give its own values ...
+    i = int(rng.integers(len(K)))
+    after = f"after evaluate_k_path(quantities={names}, ibands={ibands})"
+    ctx.ev()
     try:
-        res = wb.evaluate_k_path(system, path=path, quantities=names, ibands=ibands, parallel=False,
-                                 k_batch=int(rng.integers(1, 51)))
-        compare_tab(ctx, res, oracle, K, system, ibands, good, a0, "path_tabulation", wit)
-        ctx.count("named_quantities_with_ibands")
-        # afterwards a point alone must still give its own values
-        i = int(rng.integers(len(K)))
-        ctx.ev()
-        try:
-            r = wb.evaluate_k(system, k=tuple(K[i]), quantities=names, iband=ibands, return_single_as_dict=True)
-            bad = [n for n in names if np.shape(r[n]) != oracle[n][i].shape or
-                   np.abs(np.asarray(r[n]) - oracle[n][i]).max() > 1e-9 * max(1.0, np.abs(oracle[n]).max())]
-            if bad:
-                ctx.violation(LEAK_MECH, f"evaluate_k(quantities={names}, iband={ibands}) after "
-                              f"evaluate_k_path(quantities, ibands={ibands}) returns other values for {bad}", wit)
-        except (IndexError, TypeError, ValueError) as e:
-            ctx.violation(LEAK_MECH, f"evaluate_k(quantities={names}, iband={ibands}) after evaluate_k_path(quantities, "
-                          f"ibands={ibands}) raises {type(e).__name__}: {e}", wit)
-        # ... and the whole band set too
-        ctx.ev()
-        try:
-            r = wb.evaluate_k(system, k=tuple(K[i]), quantities=["energy"])
-            if np.shape(r) != (nw,) or np.abs(r - Eall[i]).max() > 1e-9:
-                ctx.violation(LEAK_MECH, f"evaluate_k(quantities=['energy']) after evaluate_k_path(quantities, "
-                              f"ibands={ibands}) returns {np.asarray(r).tolist()} expected {Eall[i].tolist()}", wit)
-        except (IndexError, TypeError, ValueError) as e:
-            ctx.violation(LEAK_MECH, f"evaluate_k(quantities=['energy']) after evaluate_k_path(quantities, "
-                          f"ibands={ibands}) raises {type(e).__name__}: {e}", wit)
-    finally:
-        reset_named_quantities(state)
+        r = wb.evaluate_k(system, k=tuple(K[i]), quantities=names, iband=ibands, return_single_as_dict=True)
+        bad = [n for n in names if np.shape(r[n]) != oracle[n][i].shape or
+               np.abs(np.asarray(r[n]) - oracle[n][i]).max() > 1e-9 * max(1.0, np.abs(oracle[n]).max())]
+        if bad:
+            ctx.violation(LEAK_MECH, f"evaluate_k(quantities={names}, iband={ibands}) {after} returns other values "
+                          f"for {bad}", wit)
+    except (IndexError, TypeError, ValueError) as e:
+        ctx.violation(LEAK_MECH, f"evaluate_k(quantities={names}, iband={ibands}) {after} raises "
+                      f"{type(e).__name__}: {e}", wit)
+    # ... also for the whole band set ...
+    ctx.ev()
+    try:
+        r = wb.evaluate_k(system, k=tuple(K[i]), quantities=["energy"])
+        if np.shape(r) != (nw,) or np.abs(r - Eall[i]).max() > 1e-9:
+            ctx.violation(LEAK_MECH, f"evaluate_k(quantities=['energy']) {after} returns {np.asarray(r).tolist()} "
+                          f"expected {Eall[i].tolist()}", wit)
+    except (IndexError, TypeError, ValueError) as e:
+        ctx.violation(LEAK_MECH, f"evaluate_k(quantities=['energy']) {after} raises {type(e).__name__}: {e}", wit)
+    # ... and a second path evaluation with all bands gives all bands
+    ctx.ev()
+    try:
+        from wannierberri.grid import Path
+        sub = Path(system, k_list=K[:5])
+        r2 = wb.evaluate_k_path(system, path=sub, quantities=["energy"], parallel=False)
+        E2 = np.asarray(r2.get_data("energy"))
+        if E2.shape != Eall[:5].shape or np.abs(E2 - Eall[:5]).max() > 1e-9:
+            ctx.violation(LEAK_MECH, f"evaluate_k_path(quantities=['energy']) {after} returns shape {E2.shape} "
+                          f"expected {Eall[:5].shape} / other values", wit)
+    except (IndexError, TypeError, ValueError) as e:
+        ctx.violation(LEAK_MECH, f"evaluate_k_path(quantities=['energy']) {after} raises {type(e).__name__}: {e}", wit)
 
 
 # ------------------------------------------------------------------ the case ------------------
 
 def case(ctx, rng, idx, state):
     from wannierberri.grid import Path
-    reset_named_quantities(state)
     # ---- construction only (cheap): several node lists on bare lattices
     ncons = 6
     for _ in range(ncons):
@@ -616,14 +622,18 @@ def case(ctx, rng, idx, state):
     # ---- tabulation along a path
     nw = int(rng.integers(1, 5))
     has_AA = bool(rng.random() < 0.4)
-    keys = ("Ham", "AA") if has_AA else ("Ham",)
+    has_SS = bool(rng.random() < 0.2)
+    if has_SS:
+        nw = 2 * int(rng.integers(1, 3))
+    keys = ("Ham",) + (("AA",) if has_AA else ()) + (("SS",) if has_SS else ())
     use_sp = sp_out is not None and len(sp_out[1]) <= 70 and rng.random() < 0.6
     if use_sp:
         lattice = sp_out[2]
     else:
         lattice = gen_systems.random_lattice(rng)
     system = gen_systems.herm_system(rng, num_wann=nw, lattice=lattice, radius=rng.uniform(1.0, 2.2), keys=keys,
-                                     centers=["random", "outside", "zero"][int(rng.integers(3))])
+                                     centers=["random", "outside", "zero"][int(rng.integers(3))],
+                                     spinor=True if has_SS else None)
     recip = recip_of(lattice)
     if use_sp:
         path, K = sp_out[0], sp_out[1]
@@ -695,7 +705,7 @@ if __name__ == "__main__":
              "(incl. dk dividing a segment exactly and dk longer than every segment), lattices random or Bravais given "
              "as system / real_lattice / recip_lattice, refinement factors 2-5 (and twice), seekpath on cubic/fcc/bcc/"
              "hexagonal/tetragonal cells with 1-2 atoms; tabulation on generic random Hermitian models (1-4 WFs, with or "
-             "without AA) with k_batch in {1..50, n-1, n, n+1}, band subsets, named quantities and tabulators of rank "
+             "without AA / SS) with k_batch in {1..50, n-1, n, n+1}, band subsets, named quantities and tabulators of rank "
              "0-2, through evaluate_k_path and run(); a construction case is non-trivial with >=3 path points, distinct "
              "by (spec kind, #nodes, #breaks, revisit, G-shift, factor); a tabulation by (spec kind, #nodes, #breaks, "
              "revisit, G-shift, factor, #batches, num_wann, entry point, band subset, AA)",
